@@ -77,3 +77,21 @@ pub fn oracle_child_equiv() {
     kani::cover!(c.resolution == 1);
     kani::cover!(c.resolution == 28 && k == 3);
 }
+
+/// ∀ canonical x of resolution ≥ 0: cell_to_parent(x, None) = Ok(spec_parent1(x)).
+#[kani::proof]
+#[kani::unwind(32)]
+#[kani::stub(alloc::fmt::format, fmt_stub)]
+pub fn oracle_parent_equiv() {
+    warm();
+    let x: u64 = kani::any();
+    kani::assume(spec_valid(x) && res_stub(x) >= 0);
+    match cell_to_parent(x, None) {
+        Ok(p) => assert!(p == spec_parent1(x)),
+        Err(_) => assert!(false),
+    }
+    kani::cover!(res_stub(x) == 0);
+    kani::cover!(res_stub(x) == 1);
+    kani::cover!(res_stub(x) == 2);
+    kani::cover!(res_stub(x) == 29);
+}
